@@ -39,7 +39,8 @@ RULE = ("schedules over {async_subscribe(svc) started, NOTIFY arrives, SUBSCRIBE
         "early NOTIFYs at every response position, the same bodies for two SIDs; every enumerated schedule once with plain SIDs and once "
         "more with device-style SIDs (upper-case hex, mixed case, digits, '_', '-') or with three SIDs that differ ONLY in case (two "
         "granted to different subscriptions, one never granted: events go to exactly the verbatim SID); "
-        "plus random schedules over 1..3 services (SIDs plain / random over that alphabet / random case variants of one SID) with refused / unreachable / SID-less responses, invalid headers and values, "
+        "every enumerated schedule once with an on_event callback on the services and once with none (the default; state read from the "
+        "variables); plus random schedules over 1..3 services (SIDs plain / random over that alphabet / random case variants of one SID) with refused / unreachable / SID-less responses, invalid headers and values, "
         "verbatim repeats; "
         "after every event the status / returned value and every variable of every service are compared and judged. "
         "non-trivial = at least one NOTIFY arrived before the response that granted its SID")
@@ -132,10 +133,22 @@ async def _run(recipe, lines, tags):
         return False
     c09env.install_clock()
     cb_count = [0] * len(svcs)
+    nocb = bool(recipe.get("nocb"))
     for i, s_ in enumerate(svcs):
+        if nocb:
+            # the service has NO on_event callback (the default): state is observed by reading the variables; the "callback" count
+            # is the number of times the service was told about an event (its notify_changed_state_variables was called)
+            def _told(changes, i_=i, orig=s_.notify_changed_state_variables):
+                cb_count[i_] += 1
+                return orig(changes)
+            s_.notify_changed_state_variables = _told
+            continue
+
         def _cb(svc, vs, i_=i):
             cb_count[i_] += 1
         s_.on_event = _cb
+    if nocb:
+        tags.add("no-on_event")
     loop = asyncio.get_running_loop()
     futs: Dict[int, asyncio.Future] = {}
     tasks: Dict[int, asyncio.Task] = {}
@@ -563,14 +576,19 @@ def run_many(recipes: List[dict], prefix: str) -> List[Case]:
 
 
 def generate(ctx: Ctx) -> List[Case]:
-    cases = [run_recipe(ctx, rec, f"corpus{i}") for i, rec in enumerate(CORPUS + [dict(r, via="server") for r in CORPUS])]
+    cases = [run_recipe(ctx, rec, f"corpus{i}") for i, rec in enumerate(CORPUS + [dict(r, via="server") for r in CORPUS]
+                                                                        + [dict(r, nocb=True) for r in CORPUS])]
     recipes = exhaustive(ctx) + repeated(ctx)
     # every enumerated schedule once more with device-style SIDs / SIDs that differ only in case
+    n_enum = len(recipes)
     recipes += [with_sids(r, SID_STYLES[i % len(SID_STYLES)]) for i, r in enumerate(recipes)]
     n_random = 4000 if ctx.thorough else 300
     recipes += [rand_recipe(ctx.rng) for _ in range(n_random)]
     # a third of the schedules deliver every NOTIFY through AiohttpNotifyServer._handle_request, a third every other one
     recipes = [dict(r, via=["direct", "server", "mix"][i % 3]) for i, r in enumerate(recipes)]
+    # configuration dimension: the service has an on_event callback / has none (the default).  Every enumerated schedule runs once with
+    # and once without (one of the two under the renamed SIDs); random schedules alternate.
+    recipes = [dict(r, nocb=True) if (i + (i // n_enum if i < 2 * n_enum else 0)) % 2 else r for i, r in enumerate(recipes)]
     cases += run_many(recipes, "g")
     return cases
 
